@@ -3,6 +3,7 @@ import itertools
 import re
 
 from .. import progen
+from .. import fe
 from ..core import Case, Check, outcomes_agree
 from ..progen import I, L, S
 from ..run import hx
@@ -17,6 +18,8 @@ MEMBERS = ["at", "put", "insert", "delete", "concat", "count"]
 # (`bi` command of the driver = Model/Builtins.lean `evalBuiltin`) when every operand is a typed variable: the two
 # built-ins modelled after the repairs fde74fa (abs) and eec6e8e (pow). Their values are compared by ./check C10.
 MODEL_COMPARED = ("abs", "pow")
+# fuel of the model front end for the `text` family (a mutated program may loop: `oof` answers are counted, not compared)
+FE_FUEL = 20000
 
 
 def crash_class(iout):
@@ -52,7 +55,13 @@ class C01(Check):
             "NOT_INTEGER since the repair). A crash is a violation unless it is a listed known finding with status 'known' (identified "
             "by construct + crash class; the overflow findings of substr, subraw, hex, abs and the float-cast finding of pow "
             "are 'fixed' and suppress nothing). For abs and pow on typed variables the outcome class and the error code are "
-            "also compared with the Lean model. distinct = case text.")
+            "also compared with the Lean model. (fe) Every text of (b) that is run as one unit goes, byte for byte, ALSO through the model "
+            "front end (driver `src` = Stepwise.runText: Lex, Parse, Elab, compile checks, parse-time lock, runProgram — the function "
+            "C01.text_no_hazard_partial is about): a hazard answer of the model is a violation; inside the fragment (model neither "
+            "unsupported nor out of fuel / unmodelled) the outcome class must agree with the library — value, parse error (same code "
+            "where the parser model transcribes the rule), runtime error (same code); plus 22 forall bodies that write / do not write "
+            "to the traversed table, as one unit and statement by statement (CONST_VIOLATION on both sides, or run on both sides). "
+            "The distribution is in stats.fe_text. distinct = case text.")
 
     def gen_cases(self):
         quick = self.tier == "quick"
@@ -87,7 +96,9 @@ class C01(Check):
                         continue
                     for (t2, v2) in vals:
                         # quick tier: the boundary values (INT64 extremes, -1, NaN, inf, huge, empty) always, the ordinary ones thinned
-                        if quick and (len(t2) > 1 or ((t2, v2) in VALS and VALS.index((t2, v2)) % 2)):
+                        # (every null — typed or not — is a boundary value too: seeded C01-m5, a typed-null separator of tokenize,
+                        #  was thinned away when nulls sat at the odd positions of VALS)
+                        if quick and (len(t2) > 1 or ((t2, v2) in VALS and VALS.index((t2, v2)) % 2 and not v2.startswith("N:"))):
                             continue
                         e2, s2 = operand(v2, "y", "var")
                         add("bi", f, "%s(%s, %s)" % (f, e1, e2), s1 + s2,
@@ -156,8 +167,14 @@ class C01(Check):
             for mi, mtxt in enumerate(muts):
                 mode = ("prog", "capi", "step")[mi % 3] if not quick else ("prog", "capi", "step")[(mi + k) % 3]
                 n += 1
-                cases.append(Case("c%d" % n, "", "|".join(["new 0", "%s 0 %s" % (mode, hx(mtxt.encode("latin-1", "replace")))]),
-                                  {"family": "text", "name": mode, "expr": mtxt[:4000]}))
+                # BEGIN C01X2 (fe): the texts run through `Parser::parse` + `Executable::run` as one unit ALSO go, byte for byte, through the
+                # model front end (`src`: Stepwise.runText = Lex -> Parse -> Elab -> compile checks -> lock -> runProgram), the function
+                # `C01.text_no_hazard_partial` is about
+                mbytes = mtxt.encode("latin-1", "replace")
+                cases.append(Case("c%d" % n, ("src %d %s" % (FE_FUEL, hx(mbytes))) if mode == "prog" else "",
+                                  "|".join(["new 0", "%s 0 %s" % (mode, hx(mbytes))]),
+                                  {"family": "text", "name": mode, "expr": mtxt[:4000], "fe": mode == "prog"}))
+                # END C01X2
         # (c) witnesses of repaired crashes, replayed on every run through all three paths (a re-introduced defect is a violation)
         # BEGIN r06
         fixed_witnesses = [
@@ -171,6 +188,25 @@ class C01(Check):
                 cases.append(Case("c%d" % n, "", "|".join(["new 0", "%s 0 %s" % (mode, hx(wtxt.encode("latin-1")))]),
                                   {"family": "text", "name": mode, "expr": wtxt}))
         # END r06
+        # BEGIN C01X2 (fe-lock): texts that write to a table while a `forall` traverses it — the parser refuses them (CONST_VIOLATION);
+        # run, they would leave the iterator pointing past the end (`C01.lock_hypothesis_needed`). Library and model front end must
+        # both REJECT; the legal variants (write through the iterator, non-mutating members, another table) must both run.
+        lock_bodies = ["t.delete(0);", "t.delete(0); t.delete(0);", "t.concat(1);", "t.put(0, 9);", "t.insert(0, 9);", "t = tab(1, 1);", "t = null;",
+                       "t.delete(0).delete(0);", "for t in 1 to 2 loop nop; end loop;", "forall t in tab(1, 1) loop nop; end loop;",
+                       "forall g in t loop e = 1; g = 2; end loop;", "forall g in t loop t.concat(5); end loop;", "if false then t.delete(0); end if;",
+                       "begin t.delete(0); exception when others then nop; end;", "while false loop t.concat(1); end loop;",
+                       "e = e + 1;", "x = t.count() + t.at(0);", "u.delete(0);", "u = t;", "print t.at(0);", "do t.at(0);", "x = t.concat(1).count();"]
+        for body in lock_bodies:
+            for tail in ("print e;", ""):
+                wtxt = "t = tab(3, 7);\nu = tab(3, 7);\nforall e in t loop\n  %s\n  %s\nend loop;\nprint t.count();\n" % (body, tail)
+                n += 1
+                cases.append(Case("c%d" % n, "src %d %s" % (FE_FUEL, hx(wtxt.encode("latin-1"))), "|".join(["new 0", "prog 0 %s" % hx(wtxt.encode("latin-1"))]),
+                                  {"family": "text", "name": "prog", "expr": wtxt, "fe": True, "lock": True}))
+                # the same text statement by statement (`srcstep`: Stepwise.runStepwise, which refuses the `forall` statement alike)
+                n += 1
+                cases.append(Case("c%d" % n, "srcstep %d %s" % (FE_FUEL, hx(wtxt.encode("latin-1"))), "|".join(["new 0", "step 0 %s" % hx(wtxt.encode("latin-1"))]),
+                                  {"family": "text", "name": "step", "expr": wtxt, "fe": True, "lock": True}))
+        # END C01X2
         # (c2) expressions the PARSER evaluates (the file name of `include`, the path of `import`): in a TRUSTED context (the command
         #      line interpreter's) an expression that raises a run-time error, yields null, or names no file must reject the statement
         #      (finding C01.include_expr_runtime_error_escapes, fixed in 8b0461e: `include str(1/0);` aborted bloc with an uncaught
@@ -259,6 +295,76 @@ class C01(Check):
         self.stats["cases"] = n
         return cases
 
+    # BEGIN C01X2 (fe)
+    def judge_fe_text(self, c, out, head, m, stderr):
+        """The model front end on the SAME bytes. Returns True when a violation was recorded. (a) a hazard answer of the model is a
+        violation whatever the library did (C01.text_no_hazard_partial says there is none but signedOverflow); (b) inside the fragment
+        (the model neither `unsupported` nor `oof` / `unmodelled`) the outcome classes must agree: value / parse error (same code where
+        Model/Parse.lean transcribes the rule) / runtime error (same code). Rejections the library makes for reasons the front end
+        leaves out (checks of user-function calls and members: fe.SYNTACTIC / fe.AMBIGUOUS) are counted, not failed."""
+        st = self.stats.setdefault("fe_text", {"texts": 0, "model_hazard": 0, "unsupported": 0, "oof_or_unmodelled": 0, "library_crash_or_loop": 0,
+                                               "in_fragment": 0, "agree": {}, "library_semantic_reject": {}, "semantic_first": 0,
+                                               "unsupported_notes": {}, "lock_texts": 0, "lock_rejected_both": 0})
+        st["texts"] += 1
+        mout = m.get("model")
+        if mout is None:
+            self.record_violation("the model front end gave no answer for `%s`" % c.meta["expr"][:200], c, out, m, stderr)
+            return True
+        mh = mout.split(" out=")[0]
+        if mh.startswith("hazard"):
+            st["model_hazard"] += 1
+            self.record_violation("the model front end answers `%s` on the text `%s` (library: %s)" % (mh, c.meta["expr"][:300], out[:60]), c, out, m, stderr)
+            return True
+        if mh == "unsupported":
+            st["unsupported"] += 1
+            note = m.get("note", "?")
+            st["unsupported_notes"][note] = st["unsupported_notes"].get(note, 0) + 1
+            return False
+        if mh in ("oof", "unmodelled"):
+            st["oof_or_unmodelled"] += 1
+            return False
+        if head not in ALLOWED:
+            st["library_crash_or_loop"] += 1      # judged by the crash rules below
+            return False
+        st["in_fragment"] += 1
+        lib_perr = fe.perr_code(out)
+        mod_perr = fe.perr_code(mh)
+        if c.meta.get("lock"):
+            st["lock_texts"] += 1
+            if lib_perr == 32 and mod_perr == 32:
+                st["lock_rejected_both"] += 1
+        key = None
+        if mod_perr is not None and lib_perr is None:
+            self.record_violation("the model front end rejects (perr %d) the text `%s`, which the library compiles (%s)" % (mod_perr, c.meta["expr"][:300], out[:60]), c, out, m, stderr)
+            return True
+        if mod_perr is not None and lib_perr is not None:
+            if mod_perr == lib_perr:
+                key = "perr/perr same code"
+            elif lib_perr not in fe.SYNTACTIC:
+                st["semantic_first"] += 1
+                key = "perr/perr (library met a type or symbol error first)"
+            else:
+                self.record_violation("`%s`: rejected with parse error %d by the library, %d by the model front end" % (c.meta["expr"][:300], lib_perr, mod_perr), c, out, m, stderr)
+                return True
+        elif lib_perr is not None:
+            if lib_perr in fe.SYNTACTIC:
+                self.record_violation("`%s`: the library rejects with the syntax error %d, the model front end accepts (%s)" % (c.meta["expr"][:300], lib_perr, mh[:60]), c, out, m, stderr)
+                return True
+            st["library_semantic_reject"][str(lib_perr)] = st["library_semantic_reject"].get(str(lib_perr), 0) + 1
+            return False
+        else:
+            mclass = mh.split(" ")[0].split("-")[0]
+            if head == "ok" and mclass == "ok":
+                key = "ok/ok"
+            elif head == "rerr" and mclass == "rerr" and out.split()[1] == mh.split()[1]:
+                key = "rerr/rerr same code"
+            else:
+                self.record_violation("`%s` ends in %s, the model front end gives %s" % (c.meta["expr"][:300], out[:60], mh[:60]), c, out, m, stderr)
+                return True
+        st["agree"][key] = st["agree"].get(key, 0) + 1
+        return False
+    # END C01X2
+
     def builtin_keywords(self):
         import os
         from .. import build
@@ -279,8 +385,13 @@ class C01(Check):
         self.distinct.add(c.impl_line)
         if len(self.samples) < 10 and self.rng.random() < 0.0005:
             self.samples.append({"family": c.meta["family"], "case": c.meta["expr"][:200], "impl": out[:80]})
+        # BEGIN C01X2 (fe)
+        if c.meta.get("fe") and c.model_line:
+            if self.judge_fe_text(c, out, head, m, stderr):
+                return
+        # END C01X2
         if head in ALLOWED and "foreign-exception" not in iraw and "uncaught" not in iraw:
-            mout = m.get("model") if c.model_line else None
+            mout = m.get("model") if (c.model_line and not c.meta.get("fe")) else None
             if mout and mout != "unmodelled":
                 # outcome class against the model: value <-> value, error code <-> error code
                 self.stats["model_compared"] = self.stats.get("model_compared", 0) + 1
